@@ -31,6 +31,10 @@ pub fn round_trips<K: Fam>(e: &Enr<K>, s: &Snap) -> Result<(), String> {
         Ok(())
     };
     let bytes = s.enc.clone();
+    let c = e.clone();
+    if c != *e || snap(&c) != *s {
+        return Err("clone() differs from the original in an observable field".into());
+    }
     same("encode()", guarded(|| Enr::<K>::decode(&mut bytes.as_slice()).map_err(|e| format!("{e:?}"))).map_err(|p| format!("panic {p}"))?)?;
     let text = guarded(|| e.to_base64()).map_err(|p| format!("to_base64 panicked: {p}"))?;
     let want_text = format!("enr:{}", b64::encode(&bytes));
